@@ -171,6 +171,81 @@ def body_mime(kind: int, m: str, special: int) -> bool:
     return True
 
 
+MTYPES = [None, "text/plain", "application/octet-stream", "image/gif", "text/html"]
+ENCS = [None, "gzip", "bzip2"]
+
+
+def body_mime_e2e(kind: int, mk: int, ek: int, emk: int) -> bool:
+    """The MIME type each protocol's real handle() ADVERTISES for a document is the protocol's
+    documented rendering of the entry's one MIME type -- whatever the entry's encoding and
+    encoded-MIME-type fields say (those describe the stored form; every protocol serves the same
+    bytes), so all protocols agree on the type of a selector."""
+    from pygopherd.handlers import HandlerMultiplexer as HM
+    from pygopherd.protocols import gopherp
+
+    cfg = hx.DictConfig(True)
+    hx.silence_logging()
+    mt, enc, emt = MTYPES[mk], ENCS[ek], MTYPES[emk]
+
+    class H:
+        def __init__(self, sel):
+            self.e = rl.entry(cfg, "0" if (mt or "").startswith("text") else "9", "n", sel, mimetype=mt, size=3)
+            self.e.encoding = enc
+            self.e.encodedmimetype = emt
+
+        def getentry(self):
+            return self.e
+
+        def prepare(self):
+            pass
+
+        def isdir(self):
+            return False
+
+        def write(self, w):
+            w.write(b"BODY")
+
+    def getHandler(selector, searchrequest, protocol, config, handlerlist=None, vfs=None):
+        return H(selector)
+
+    saved = HM.getHandler
+    HM.getHandler = getHandler
+    w = hx.ListWriter()
+    try:
+        if kind == 6:
+            p = gopherp.GopherPlusProtocol("/x.gz" + chr(9) + "!", hx.make_server(cfg), hx.make_rh(False), None, w, cfg)
+            p.canhandlerequest()
+        else:
+            p = rl.proto(kind, cfg, selector="/x.gz", wfile=w)
+        p.handle()
+    finally:
+        HM.getHandler = saved
+    out = w.gettext()
+    hx.reach()
+    if kind in (2, 3):
+        i = out.find("Content-Type: ")
+        hx.require(i >= 0, "C06:no-content-type", lambda: repr(out[:200]))
+        got = out[i + 14:out.find(chr(13), i)]
+        hx.require("Content-Encoding" not in out[:out.find(chr(13) + chr(10) + chr(13) + chr(10))], "C06:content-encoding-declared-in-one-protocol-only:%s" % dl.PROTO_NAMES[kind], lambda: repr(out[:300]))
+        want = (mt or "text/plain") if kind == 2 else ("text/vnd.wap.wml" if mt in (None, "text/plain") else mt)
+    elif kind in (4, 5):
+        pre = "20 " if kind == 4 else "2 "
+        hx.require(out.startswith(pre), "C06:no-success-status", lambda: repr(out[:100]))
+        got = out[len(pre):out.find(chr(13))]
+        want = mt or "text/plain"
+    else:
+        if mt is None:
+            hx.require("+VIEWS" not in out, "C06:views-without-type", lambda: repr(out[:300]))
+            return True
+        i = out.find("+VIEWS:" + chr(13) + chr(10) + " ")
+        hx.require(i >= 0, "C06:no-views-block", lambda: repr(out[:300]))
+        got = out[i + 10:out.find(":", i + 10)]
+        want = mt
+    hx.require(got == want, "C06:advertised-mime-type-differs:%s" % dl.PROTO_NAMES[kind],
+               lambda: "entry type=%r encoding=%r encoded type=%r: %s advertises %r, expected %r" % (mt, enc, emt, dl.PROTO_NAMES[kind], got, want))
+    return True
+
+
 def body_slash(kind: int, u: str) -> bool:
     """A directory selector with and without a trailing slash reaches handler selection identically."""
     cfg = hx.DictConfig(True)
@@ -334,6 +409,11 @@ def obligations(tier, seed):
                       desc="MIME adjustment of %s: menus map to the protocol's listing type, None to the default, everything else unchanged" % dl.PROTO_NAMES[kind],
                       bounds="type strings |m| <= 4 + the special constants", functions=["adjustmimetype/adjust_mimetype"]))
     for kind in (0, 6, 2, 3, 4, 5):
+        if kind != 0:
+          obs.append(Ob(id="C06.3b-mime-advertised[%s]" % dl.PROTO_NAMES[kind], body="harness.C06:body_mime_e2e", sig="kind: int, mk: int, ek: int, emk: int",
+                      pre=["kind == %d" % kind, "0 <= mk < %d" % len(MTYPES), "0 <= ek < %d" % len(ENCS), "0 <= emk < %d" % len(MTYPES)], timeout=200,
+                      desc="%s handle() for a document whose entry has symbolic MIME type, encoding and encoded-MIME-type: the advertised type is this protocol's rendering of the entry's MIME type alone (so every protocol names the same type for the selector)" % dl.PROTO_NAMES[kind],
+                      bounds="5 MIME types x 3 encodings x 5 encoded types (symbolic indices)", functions=["protocols.http.HTTPProtocol.handle", "protocols.gemini/spartan handle", "GopherPlusProtocol.getviewsblock"]))
         obs.append(Ob(id="C06.4-trailing-slash[%s]" % dl.PROTO_NAMES[kind], body="harness.C06:body_slash", sig="kind: int, u: str",
                       pre=["kind == %d" % kind, "1 <= len(u) <= %d" % (2 if tier == "quick" else 3), "all(c in 'a/.' for c in u)"], timeout=300,
                       desc="%s: /u and /u/ reach handler selection as the same selector" % dl.PROTO_NAMES[kind], bounds="|u| <= %d over {a / .}" % (2 if tier == "quick" else 3),
